@@ -73,6 +73,8 @@ package bufcas
 //@   property C08 C13
 //@   ensures err == nil ==> path != "" && validRel(path) && Normalize(path) == path && digest != nil
 //@   ensures path != "" && validRel(path) && Normalize(path) == path && digest != nil ==> err == nil
+// every accepted path must fit on one manifest line (the canonical text is line-oriented)
+//@   ensures single-line: err == nil ==> !contains(path, "\n")
 //
 //@ func newFileNode(path, digest) (r)
 //@   property C08
